@@ -93,6 +93,17 @@ pub fn format_comments(comments: &ChildTrivia, loc: CommentLocation, out: &mut P
 					.split('\n')
 					.map(|l| l.trim_end().to_string())
 					.collect::<Vec<_>>();
+				if doc {
+					// Tabs in front of the text do not line up behind the gutter. They are replaced
+					// before the common padding is looked for: it is different afterwards
+					for line in &mut lines {
+						let padding = line.len()
+							- line
+								.trim_start_matches(|c: char| c.is_whitespace() || c == '*')
+								.len();
+						line.replace_range(..padding, &line[..padding].replace('\t', "    "));
+					}
+				}
 				// Text directly behind `/*` says nothing about the padding of the lines below it; it is
 				// printed as the first of them, and takes part in what they have in common then
 				strip_common_padding(&mut lines[1..]);
@@ -138,11 +149,7 @@ pub fn format_comments(comments: &ChildTrivia, loc: CommentLocation, out: &mut P
 								p!(out, str(" "));
 							}
 							while let Some(new_line) = line.strip_prefix('\t') {
-								if doc {
-									p!(out, str("    "));
-								} else {
-									p!(out, tab);
-								}
+								p!(out, tab);
 								line = new_line.to_string();
 							}
 							p!(out, string(line.clone()) nl);
